@@ -110,6 +110,9 @@ func c17run(c *vlib.Case, cs c17case, res *vlib.Result) {
 			return
 		}
 		defer sys.StopNow()
+		if cs.InformerPoll {
+			sys.Pts.Clear(vlib.SyncYieldPoint) // this case wants the informer inside its cache-sync poll at the stop
+		}
 		sys.Pts.Record("q.handler.enter", "q.handler.exit", "q.worker.exit", "q.wait.begin", "q.wait.tick", "op.afterHookRun")
 		sys.Start()
 		if !sys.Settle(100) {
